@@ -1137,6 +1137,8 @@ def run(model, rep):
     from . import prim as _prim
     _prim.rule_hash_names(model, rep, "C07.k-digest-names")
     rule_fresh_records(model, rep)
+    rule_hex_case(model, rep, table)
+    rule_empty_checksum(model, rep)
 
 
 CACHERS = {"lru_cache", "cache", "memoize_single_value", "cached_property", "memoized_property"}
@@ -1180,3 +1182,47 @@ def rule_fresh_records(model, rep):
                       witness="info = inspect_sha_crypt(h, cls); info.rounds = 9999 (deriving another record); inspect_sha_crypt(h, cls).as_str() != h on the next call")
     if n < 2:
         rep.undecided(R, "<instance-count>", f"only {n} record-building public inspect functions found, expected at least 2")
+
+
+#: hashers that admit both hex cases but fold none, confirmed by reading: name -> reason
+HEX_CASE_EXEMPT = {"postgres_md5": "PostgreSQL writes the digest in lower case only; the documentation promises no case-insensitive reading (an upper-case string parses, "
+                                   "re-renders unchanged and verifies nothing)"}
+
+
+def rule_hex_case(model, rep, table):
+    """a hasher whose digest alphabet admits both hex cases (checksum_chars = HEX_CHARS) computes one case: stored strings in the other case
+    are its documented equivalents only if `_norm_hash` folds them to the computed case"""
+    R = "C07.m-hex-case-folded"
+    n = 0
+    for h in table:
+        if h.cref is None or h.kind not in ("class", "factory"):
+            continue
+        try:
+            _, node = model.lookup(h.cref, "checksum_chars")
+        except Exception:
+            continue
+        if node is None or ast.unparse(node).split(".")[-1] != "HEX_CHARS":
+            continue
+        n += 1
+        s = f"{h.cref[0]}:{h.cref[1]} ({h.name})"
+        if h.name in HEX_CASE_EXEMPT:
+            rep.hold(R, s, "exempt: " + HEX_CASE_EXEMPT[h.name])
+            continue
+        _, nh = model.method(h.cref, "_norm_hash", required=False)
+        rets = [ast.unparse(r.value) for r in walk_no_nested(nh) if isinstance(r, ast.Return) and r.value is not None] if nh is not None else []
+        rep.check(rets in (["hash.lower()"], ["hash.upper()"]), R, s, f"_norm_hash returns {rets}" if nh is not None else "no _norm_hash",
+                  "digests over the mixed-case hex alphabet are folded to the case the hasher computes",
+                  witness="msdcc2.verify(pw, h.upper(), user=u) is False for the right password and from_string(h.upper()).to_string() keeps the upper-case digest")
+    if n < 10:
+        rep.undecided(R, "<instance-count>", f"only {n} hashers with a mixed-case hex alphabet found, expected at least 10")
+
+
+def rule_empty_checksum(model, rep):
+    """the modular-crypt parsers hand an absent *or empty* digest field on as None -- a configuration string may end in the separator
+    (`$sha1$10$salt$`), and every handler tests `checksum is None`, never `== ''`"""
+    R = "C07.n-empty-digest-is-none"
+    for q, want in (("parse_mc2", "(salt, chk or None)"), ("parse_mc3", "(rounds, salt, chk or None)")):
+        fn = model.func(UH, q)
+        rets = [ast.unparse(r.value) for r in walk_no_nested(fn) if isinstance(r, ast.Return) and r.value is not None and any(isinstance(x, ast.Name) and x.id == "chk" for x in ast.walk(r.value))]
+        rep.check(rets == [want], R, f"{UH}:{q}", "; ".join(rets), "the digest field is returned as `chk or None`",
+                  witness="sha1_crypt.genhash(pw, '$sha1$10$salt$') / pbkdf2_sha256.from_string('$pbkdf2-sha256$10$c2FsdA$') raise: the empty digest reaches the size check instead of meaning 'no digest'")
